@@ -76,7 +76,7 @@ fn probe_corpus() -> &'static Vec<(InputSpec, Vec<i32>)> {
                         rate: [44100, 8000, 96000, 12345][(i % 4) as usize],
                         len,
                         chans: (0..channels).map(|c| ChanSpec { segs: vec![Seg { class: cls, amp: (2 + (i + c as u64) % 3) as u8, p: (i * 977) as u32 }] }).collect(),
-                        rel: (i % 5) as u8,
+                        rel: (i % 9) as u8,
                         seed: i,
                         explicit: None,
                     };
